@@ -15,6 +15,7 @@ NOT_DECIDED = "timing against real schedules; whether the application keeps serv
 
 
 def check(ctx):
+    incomers_built_refreshable(ctx)
     class_default_only_as_default(ctx)
     ctx.rule("T12-refresh", "receive/send of Incomer and IncomerTls: refresh() on the data / bytes-sent path, guarded only by refreshable")
     ctx.rule("T1-idle", "closing for idleness is dominated by ix.timeout > 0.0 and ix.timer.expired")
@@ -115,3 +116,23 @@ def class_default_only_as_default(ctx):
                           "a timer re-armed with the class default instead of the configured timeout makes the configured idle "
                           "timeout ineffective for that connection: it is dropped after the default period of silence")
     ctx.floor("T5-default:reads", k, 4)
+
+
+def incomers_built_refreshable(ctx):
+    """an incomer refreshes its idle timer on traffic because its constructor default says so: the servers that build incomers
+    leave that default alone (or pass True)"""
+    ctx.rule("T5-refreshable", "Server/ServerTls build Incomer/IncomerTls without a refreshable= argument (or with the constant True)")
+    k = 0
+    for cn in ("Server", "ServerTls"):
+        C = ctx.cls("tcp.serving", cn)
+        for mn, f in sorted(C.methods.items()):
+            for x in ast.walk(f):
+                if isinstance(x, ast.Call) and (dotted(x.func) or "").split(".")[-1] in ("Incomer", "IncomerTls"):
+                    k += 1
+                    ctx.use(f)
+                    kw = [kk for kk in x.keywords if kk.arg == "refreshable"]
+                    ctx.check(not kw or (isinstance(kw[0].value, ast.Constant) and kw[0].value.value is True) and not any(kk.arg is None for kk in x.keywords),
+                              "T5-refreshable", x, "%s.%s builds %s with the default refreshable" % (cn, mn, dotted(x.func)),
+                              "a value handed through from the server (None when the option is not given) switches the refresh off: every "
+                              "connection is closed one timeout after it was accepted, however busy it is")
+    ctx.floor("T5-refreshable:sites", k, 2)
